@@ -405,12 +405,12 @@ def oracle(r):
                 fails.append("%s = %.9g but the boxes do not overlap" % (nm, f(v)))
             if abs(f(v) - f(true_iou)) > ti + 2e-7:
                 fails.append("%s = %.9g but intersection/union = %.9g" % (nm, f(v), f(true_iou)))
+    # (None and a value inside the 1e-9 band around zero are not told apart: z() reads None as 0)
+    def z(v):
+        return 0.0 if v is None else f(v)
     va, vb = r["iou"], r["iou_ba"]
-    if (va is None) != (vb is None):
-        if overlap or touching_or_less:
-            fails.append("IoU(a,b) %s but IoU(b,a) %s" % (va, vb))
-    elif va is not None and abs(f(va) - f(vb)) > 2 * ti + 2e-7:
-        fails.append("IoU not symmetric: %.9g vs %.9g" % (f(va), f(vb)))
+    if abs(z(va) - z(vb)) > 2 * ti + 2e-7:
+        fails.append("IoU not symmetric: %s vs %s" % (None if va is None else f(va), None if vb is None else f(vb)))
     if r["iouv"] != r["iou"]:
         fails.append("VisualObservationAttributes IoU differs from Universal2DBox IoU")
     # identical boxes
@@ -429,22 +429,16 @@ def oracle(r):
             tt = 2 * (1e-6 + 4e-15 * (Mt / smin) ** 2) + 2e-7
             if w == "P":
                 fails.append("panic on the translated pair")
-            elif (v is None) != (w is None):
-                if overlap or touching_or_less:
-                    fails.append("translation changes IoU %s -> %s" % (v, w))
-            elif v is not None and abs(f(v) - f(w)) > tt:
-                fails.append("translation changes IoU %.9g -> %.9g" % (f(v), f(w)))
+            elif abs(z(v) - z(w)) > tt:
+                fails.append("translation changes IoU %s -> %s" % (None if v is None else f(v), None if w is None else f(w)))
     if "mr" in r:
         v, w = r["iou"], r["iou_mr"]
         info["rotated"] = True
         tr = 2e-3
         if w == "P":
             fails.append("panic on the rotated pair")
-        elif (v is None) != (w is None):
-            if f(true_iou) > tr:
-                fails.append("common rotation changes IoU %s -> %s" % (v, w))
-        elif v is not None and abs(f(v) - f(w)) > tr:
-            fails.append("common rotation changes IoU %.9g -> %.9g" % (f(v), f(w)))
+        elif abs(z(v) - z(w)) > tr:
+            fails.append("common rotation changes IoU %s -> %s" % (None if v is None else f(v), None if w is None else f(w)))
     # closed form when neither box is rotated
     if "aa" in r:
         tc = tol_closed_form(r)
